@@ -167,6 +167,17 @@ func (g *Gen) atom(b *BaseType, col string) (Atom, bool) {
 		for _, n := range g.named[b.RefTable] {
 			cands = append(cands, "@"+n)
 		}
+		if b.RefType == "weak" && g.prof.Name == "refs" && g.chance(40) {
+			// valid input: the uuid of a row of ANOTHER table in a weak reference
+			// column; it refers to no row of the right table and is pruned
+			for _, tn := range g.sch.TableNames {
+				if tn != b.RefTable {
+					if us := g.rowsOf(tn); len(us) > 0 {
+						return AUUID(us[g.pick(len(us))]), true
+					}
+				}
+			}
+		}
 		if len(cands) == 0 {
 			return Atom{}, false
 		}
